@@ -25,13 +25,32 @@ Definition enc_segs (sg : list (N * N * list rcd)) : list (N * N * bytes) :=
 
 Definition no_read_fault (rs : list N) : Prop := Forall (fun k => k <> R_ERR) rs.
 
+(* handlers that never ABANDON a pending read: every opcode of [script_ok] except 11 (a read future polled once and
+   dropped).  The hypothesis is needed (ex2p_abandoned_read_deadlocks in Async/PeerProofs2.v): Request::poll_output may
+   return Pending after it has written only PART of a management reply; a handler that drops the read future at that
+   point and then writes through a StreamWriter puts its record in the middle of the cut reply (the model's writer
+   does not look at Request.lock), the client can never count that reply and waits for it forever. *)
+Inductive no_abandoned_read : list N -> Prop :=
+| NA_nil : no_abandoned_read []
+| NA_read n rest : no_abandoned_read rest -> no_abandoned_read (1 :: n :: rest)
+| NA_read_all rest : no_abandoned_read rest -> no_abandoned_read (2 :: rest)
+| NA_fill k rest : no_abandoned_read rest -> no_abandoned_read (3 :: k :: rest)
+| NA_set s rest : no_abandoned_read rest -> no_abandoned_read (4 :: s :: rest)
+| NA_writeable rest : no_abandoned_read rest -> no_abandoned_read (5 :: rest)
+| NA_write s n rest : no_abandoned_read (drop n rest) -> no_abandoned_read (6 :: s :: n :: rest)
+| NA_flush s rest : no_abandoned_read rest -> no_abandoned_read (7 :: s :: rest)
+| NA_exit d c rest : no_abandoned_read (8 :: d :: c :: rest)
+| NA_fail k rest : no_abandoned_read (9 :: k :: rest)
+| NA_readq n rest : no_abandoned_read rest -> no_abandoned_read (10 :: n :: rest).
+
 (* MAIN: on a fault-free transport, for every buffer size, every such client, every list of well-formed handler
-   scripts (all handler behaviours of the family: reading, buffered reading, stream switching, writing, early
-   return, own exit status, failing) and every read/write readiness pattern, the connection task ends by
+   scripts that await the reads they start (all handler behaviours of the family but the abandoned poll of op 11:
+   reading, buffered reading, stream switching, writing, early return, own exit status, failing) and every
+   read/write readiness pattern, the connection task ends by
    RETURNING: it never ends up waiting for a client that waits for it. *)
 Definition peer_never_deadlocks_stmt : Prop :=
   forall (norm : bytes -> bytes) (maxc : N) scripts B sg w0,
-  B < SIZE_LIMIT - 8 -> scripts_ok true scripts ->
+  B < SIZE_LIMIT - 8 -> scripts_ok true scripts -> Forall no_abandoned_read scripts ->
   segs w0 = enc_segs sg -> peer_segs 0 sg -> wlog w0 = [] ->
   no_fault (wscript w0) -> no_read_fault (rscript w0) -> stop_at w0 = 0 -> stopped w0 = false ->
   len (flat_map (fun s : N * N * bytes => snd s) (segs w0)) < SIZE_LIMIT ->
